@@ -3,7 +3,8 @@
    history (several repetitions of the whole history) and on fresh caches
    (several repetitions; a fresh process for corpus cases). The validator
    [history_independent_b] and the known-finding classification run here. *)
-From Apko Require Export Base.Prelude Model.Caches Spec.CachesSpec.
+From Apko Require Export Base.Prelude Model.Caches Spec.CachesSpec Model.CachesBridge.
+From Apko Require Model.Resolver Corr.C02.
 Open Scope string_scope. Open Scope list_scope.
 
 Record hcase := {
@@ -111,6 +112,29 @@ Definition opt_pids_eqb (a b : option (list pid)) : bool :=
   | _, _ => false
   end.
 
+(* ---- the sequential resolver model on what the cache model hands out -----------
+   Every outcome observed for a call must be what Model/Resolver.v computes for
+   the resolver of the call's indexes and THE DISQUALIFICATION SET THE CACHE
+   MODEL SAYS THE CALL IS HANDED AFTER THIS HISTORY (for C08-F2 cases that is the
+   wrongly shared entry). Corr/C02's comparison is reused: for universes with
+   install_if it searches a legal iteration schedule reproducing the outcome
+   (skipped beyond 4 trigger names, where the search is too large). *)
+Definition is_some {A} (o : option A) : bool := match o with Some _ => true | None => false end.
+Definition flat_outcome (u : universe) (ixs : list idxid) (o : outcome) : option (option (list nat)) :=
+  match o with
+  | Fail => Some None
+  | Res l => let fl := List.map (flat_of u ixs) l in
+             if forallb is_some fl then Some (Some (filter_some fl)) else None
+  end.
+Definition model_result_tags (u : universe) (c : call) (handed : list pid) (obs : list outcome) : list string :=
+  let R := Resolver.new_resolver (flatten u (cl_indexes c)) in
+  if Nat.ltb 4 (List.length (C02.triggers R)) then [] else
+  let dq0 := flat_pids u (cl_indexes c) handed in
+  flat_map (fun o => match flat_outcome u (cl_indexes c) o with
+                     | None => ["mismatch:result-pid-outside-resolver"]
+                     | Some fo => C02.compare_run R (cl_world c) dq0 fo
+                     end) obs.
+
 Fixpoint seq_tags (u : universe) (all : list call) (anyamb : bool) (x : state) (exact : bool)
   (calls : list call) (obs oracle : list (list outcome))
   (bef : list (option (list pid))) (aft : list (list pid)) (amb : list bool) : list string :=
@@ -130,7 +154,8 @@ Fixpoint seq_tags (u : universe) (all : list call) (anyamb : bool) (x : state) (
       dt ++ result_tags u prec (wrong || anyamb) o r ++
       (if exact' then
          tag_if (negb (opt_pids_eqb (model_entry u x c) b)) "mismatch:dq-cache-model/entry-before-call" ++
-         tag_if (negb (opt_pids_eqb (model_entry u x' c) (Some a))) "mismatch:dq-cache-model/entry-after-call"
+         tag_if (negb (opt_pids_eqb (model_entry u x' c) (Some a))) "mismatch:dq-cache-model/entry-after-call" ++
+         model_result_tags u c (match model_entry u x' c with Some l => l | None => [] end) o
        else []) ++
       seq_tags u all anyamb x' exact' calls' obs' oracle' bef' aft' amb'
   | _, _, _, _, _, _ => ["mismatch:harness-shape/lengths"]
@@ -141,7 +166,10 @@ Fixpoint conc_tags (u : universe) (all : list call)
   match calls, obs, oracle with
   | [], [], [] => []
   | c :: calls', o :: obs', r :: oracle' =>
-      result_tags u (regrouped_precedent all c) true o r ++ conc_tags u all calls' obs' oracle'
+      let prec := regrouped_precedent all c in
+      result_tags u prec true o r ++
+      (if prec then [] else model_result_tags u c (dq_difference u (cl_archs c)) o) ++
+      conc_tags u all calls' obs' oracle'
   | _, _, _ => ["mismatch:harness-shape/lengths"]
   end.
 
